@@ -333,6 +333,7 @@ SPEC = {
     'rx_start': lambda ev, v, buf: _m(v, buf).start(), 'rx_end': lambda ev, v, buf: _m(v, buf).end(),
     'using': None,
     'deferred_agrees': lambda ev, fn, pkt, expected: _deferred_agrees(fn, pkt, expected),
+    'truth_agrees': lambda ev, fn, pkt, expected: _truth_agrees(fn, pkt, expected),
     'istuple': lambda ev, v, n: isinstance(v, tuple) and len(v) == n,
     'tupitem': lambda ev, v, n, i: v[i],
     'same': lambda ev, a, b: (a is b) or (type(a) is type(b) and isinstance(a, (int, bytes, str, bool, type(None))) and a == b),
@@ -341,6 +342,16 @@ SPEC = {
 
 def _undef():
     raise Undefined('undefined')
+
+
+def _truth_agrees(fn, pkt, expected):
+    """the condition callable answers a value whose truth is the expected one (it need not be a bool)"""
+    kind, val = expected
+    try:
+        got = fn(pkt=pkt)
+    except Exception as e:
+        return kind == 'raise' and type(e).__name__ == val
+    return kind == 'ok' and bool(got) == bool(val)
 
 
 def _deferred_agrees(fn, pkt, expected):
